@@ -227,6 +227,8 @@ type c20Msg struct {
 	CRaw      int64
 	CHandler  int64
 
+	NoCompare bool // delivered in a swap window the code does not have (gate point never reached)
+
 	entered chan struct{} // closed when B's handler has been entered (only if hold != nil)
 	hold    chan struct{} // B's handler waits for this before returning
 }
@@ -939,6 +941,7 @@ func TestVerifC20Net(t *testing.T) {
 			var swapDone chan struct{}
 			var gateRelease chan struct{}
 			swapIdx := -1
+			windowMissing := false
 			for si, s := range b.Hist {
 				ops[s.Op]++
 				switch s.Op {
@@ -965,9 +968,11 @@ func TestVerifC20Net(t *testing.T) {
 						// the code has no such point (e.g. the fixed tree): the swap completed atomically
 						c20Gate.disarm()
 						gateNotReached++
+						windowMissing = true
 					case <-time.After(3 * time.Second):
 						c20Gate.disarm()
 						gateNotReached++
+						windowMissing = true
 					}
 				case "register":
 					if c20Gate == nil {
@@ -977,6 +982,7 @@ func TestVerifC20Net(t *testing.T) {
 					e.ev("gate_release", nil)
 					close(gateRelease)
 					<-swapDone
+					windowMissing = false
 					e.swapEnd(swapIdx, s.H)
 					if s.H == "nil" {
 						n.bSlot = "ignoreAll"
@@ -986,6 +992,7 @@ func TestVerifC20Net(t *testing.T) {
 				case "deliver":
 					cl := b.Cls[s.M]
 					m := e.newMsg(s.M, cl, "replay", b.Idx, s.H, true)
+					m.NoCompare = windowMissing
 					live[s.M] = m
 					willCall := c20IsHandler(s.H) && (cl.Dec == "ok" || cl.Dec == "two")
 					if willCall {
@@ -1041,7 +1048,7 @@ func TestVerifC20Net(t *testing.T) {
 					}
 					got.Relay = snap.CRaw != 0 || snap.CHandler != 0
 					distinct[fmt.Sprintf("%s/%v/%s", s.H, m.Cls, got.Res)] = true
-					if s.Exp != nil && (got.Called != s.Exp.Called || got.F != s.Exp.F || got.Res != s.Exp.Res) {
+					if s.Exp != nil && !m.NoCompare && (got.Called != s.Exp.Called || got.F != s.Exp.F || got.Res != s.Exp.Res) {
 						// B-side result differs from the spec.  A relay the spec expects and the code does not
 						// perform is not reported (the property is only-if); everything else is a mismatch.
 						if !(s.Exp.Relay && !got.Relay && s.Exp.Res == "novalidator") {
